@@ -1,5 +1,5 @@
 """C13 — traversals and tree metrics (structural clauses)."""
-from ..mir import Callee, Resolver, fmt, literals, walk, strip_sites as s
+from ..mir import agg_field, Callee, Resolver, fmt, literals, walk, strip_sites as s
 from ..effects import assigns, mut_calls
 from . import prune
 from .prune import is_call
@@ -106,11 +106,11 @@ def r1(ctx, ty, b):
     for e in rets:
         for x in walk(e):
             if isinstance(x, tuple) and x[:1] == ('agg',) and isinstance(x[1], tuple) and x[1][1] == 'DfsNodeData':
-                entries.append(('node', x[2][1]))
+                entries.append(('node', agg_field(x, 'index')))
     for w in assigns(b, R):
         for x in walk(w.value):
             if isinstance(x, tuple) and x[:1] == ('agg',) and isinstance(x[1], tuple) and x[1][1] == 'DfsNodeData':
-                entries.append(('node', x[2][1]))
+                entries.append(('node', agg_field(x, 'index')))
     for bb, t in b.calls():
         c = Callee(t['func'])
         if c.name in ('push', 'push_back'):
@@ -118,7 +118,7 @@ def r1(ctx, ty, b):
             for x in walk(v):
                 # the start item pushed onto an empty frontier instead of written as `vec![..]`
                 if isinstance(x, tuple) and x[:1] == ('agg',) and isinstance(x[1], tuple) and x[1][1] == 'DfsNodeData':
-                    entries.append(('node', x[2][1]))
+                    entries.append(('node', agg_field(x, 'index')))
             if v[0] == 'agg' and v[1] == 'tuple' and len(v[2]) == 4:
                 entries.append(('edge-src', v[2][1]))
                 lab, tgt = v[2][2], v[2][3]
@@ -172,7 +172,7 @@ def r2(ctx, ty, m):
         return x[0] == 'bin' and x[1].startswith('Add') and s(x[2]) == s(base) and x[3] == ('const', 1)
     popped = ('call', pops[0][1], (pushes[0][2][0],), pops[0][0])
     if val[0] == 'agg' and isinstance(val[1], tuple) and val[1][1] == 'DfsNodeData':
-        dexpr, dbase = val[2][0], ('field', popped, 'depth')
+        dexpr, dbase = agg_field(val, 'depth'), ('field', popped, 'depth')
     elif val[0] == 'agg' and val[1] == 'tuple' and len(val[2]) == 4:
         dexpr, dbase = val[2][0], ('field', popped, '0')
     else:
@@ -182,7 +182,7 @@ def r2(ctx, ty, m):
                                                        'child depth is not the popped entry\'s depth + 1: %s' % fmt(dexpr)[:80], b.where(pushes[0][0]))
     # R3: sibling counter for node traversals
     if val[0] == 'agg' and isinstance(val[1], tuple) and val[1][1] == 'DfsNodeData':
-        idx, nrem = val[2][1], val[2][2]
+        idx, nrem = agg_field(val, 'index'), agg_field(val, 'n_remaining')
         site3 = '%s::next#n_remaining' % ty
         def enum_item(e, comp):
             return e[0] == 'field' and e[2] == comp and is_call(e[1], 'Iterator::next') and is_call(e[1][2][0], 'Iterator::enumerate') \
